@@ -408,3 +408,48 @@ def ncases(quick, thorough, tier):
     if scale:
         n = max(2, int(n * float(scale)))
     return n
+
+
+def fork_call(fn, *args, timeout=120.0):
+    """Run fn(*args) in a forked grandchild (fresh copy of the current process
+    state, no shared mutable state afterwards); returns ("ok", value) |
+    ("exc", repr) | ("timeout", None) | ("died", status)."""
+    rfd, wfd = os.pipe()
+    sys.stdout.flush()
+    pid = os.fork()
+    if pid == 0:
+        os.close(rfd)
+        try:
+            try:
+                blob = pickle.dumps(("ok", fn(*args)))
+            except BaseException:  # noqa
+                blob = pickle.dumps(("exc", traceback.format_exc()))
+            with os.fdopen(wfd, "wb") as w:
+                w.write(blob)
+        finally:
+            os._exit(0)
+    os.close(wfd)
+    chunks = []
+    deadline = time.monotonic() + timeout
+    while True:
+        left = deadline - time.monotonic()
+        if left <= 0:
+            try:
+                os.kill(pid, signal.SIGKILL)
+            except ProcessLookupError:
+                pass
+            os.waitpid(pid, 0)
+            os.close(rfd)
+            return ("timeout", None)
+        r, _, _ = select.select([rfd], [], [], min(left, 1.0))
+        if r:
+            data = os.read(rfd, 1 << 20)
+            if not data:
+                break
+            chunks.append(data)
+    os.close(rfd)
+    _, status = os.waitpid(pid, 0)
+    blob = b"".join(chunks)
+    if not blob:
+        return ("died", status)
+    return pickle.loads(blob)
